@@ -143,6 +143,35 @@ namespace bloch::cli {
             addPathCandidate(paths, root);
         }
 
+        // argv[0] without a directory part means the shell found the binary through PATH: it is
+        // looked up there (as the shell did), not in the current directory.
+        fs::path locateExecutable(const char* argv0) {
+            fs::path given(argv0);
+            if (given.has_parent_path())
+                return given;
+            if (const char* pathEnv = std::getenv("PATH")) {
+                std::string dirs(pathEnv);
+#if defined(_WIN32)
+                const char sep = ';';
+#else
+                const char sep = ':';
+#endif
+                size_t start = 0;
+                while (start <= dirs.size()) {
+                    size_t end = dirs.find(sep, start);
+                    if (end == std::string::npos)
+                        end = dirs.size();
+                    std::string dir = dirs.substr(start, end - start);
+                    std::error_code ec;
+                    fs::path candidate = fs::path(dir.empty() ? "." : dir) / given;
+                    if (fs::is_regular_file(candidate, ec) && !ec)
+                        return candidate;
+                    start = end + 1;
+                }
+            }
+            return given;
+        }
+
         std::vector<std::string> resolveStdlibSearchPaths(const Context& ctx, const char* argv0) {
             std::vector<std::string> paths;
             std::string version = normaliseVersion(ctx.version);
@@ -178,7 +207,7 @@ namespace bloch::cli {
 
             if (argv0 && *argv0) {
                 std::error_code ec;
-                fs::path exePath = fs::weakly_canonical(fs::path(argv0), ec);
+                fs::path exePath = fs::weakly_canonical(locateExecutable(argv0), ec);
                 if (ec)
                     exePath = fs::absolute(fs::path(argv0), ec);
                 if (!exePath.empty()) {
